@@ -269,6 +269,40 @@ def controlled_by_field(b, bb, owner, name, want_true=None):
     return out
 
 
+def field_true_edges(b, owner, name):
+    """edges that imply `owner.name` is true: the true edge of a switch on a read of the field, or — data form of
+    `c && self.field` — of a switch on a bool local whose every definition is a read of the field or the constant false"""
+    cut = set()
+    for a in b.reachable():
+        t = b.term(a)
+        if t["k"] != "switch":
+            continue
+        neg, src = b.switch_source(a)
+        f = src_field(src)
+        okf = bool(f and f[1] == name and ends(f[0], owner))
+        if not okf and src and src[0] == "place" and is_bare(src[1]) and b.local_ty(src[1]["l"]) == "bool" and not neg:
+            ds = [r for r in b.defs()[src[1]["l"]] if r[1] in b.reachable()]
+            reads, others = [], []
+            for r in ds:
+                rv = (r[3].get("rv") or {}) if r[0] == "stmt" else {}
+                pl = op_place(rv["use"]) if "use" in rv else None
+                k = op_const(rv["use"]) if "use" in rv else None
+                fs = place_fields(pl) if pl is not None else []
+                if fs and fs[-1][1] == name and ends(fs[-1][0], owner):
+                    reads.append(r)
+                elif k is not None and k.get("ty") == "bool" and k.get("v") == "false":
+                    pass
+                else:
+                    others.append(r)
+            okf = bool(reads) and not others
+        if okf:
+            for s in b.succ(a):
+                truth, _ = edge_is_true(b, a, s)
+                if truth is True:
+                    cut.add((a, s))
+    return cut
+
+
 def dominated_by_true_edge(b, bb, owner, name, want_true=True):
     """Stronger than control dependence: every path from entry to bb passes the want_true edge of
     a switch on field owner.name.  Implemented as: bb unreachable from entry once those edges
@@ -280,6 +314,24 @@ def dominated_by_true_edge(b, bb, owner, name, want_true=True):
             continue
         neg, src = b.switch_source(a)
         f = src_field(src)
+        if not f and want_true and src and src[0] == "place" and is_bare(src[1]) and b.local_ty(src[1]["l"]) == "bool":
+            # data form of `c && self.field`: a bool local whose every definition is either a read of the field or the
+            # constant false — its true edge implies the field
+            ds = [r for r in b.defs()[src[1]["l"]] if r[1] in b.reachable()]
+            reads, others = [], []
+            for r in ds:
+                rv = (r[3].get("rv") or {}) if r[0] == "stmt" else {}
+                pl = op_place(rv["use"]) if "use" in rv else None
+                k = op_const(rv["use"]) if "use" in rv else None
+                fs = place_fields(pl) if pl is not None else []
+                if fs and fs[-1][1] == name and ends(fs[-1][0], owner):
+                    reads.append(r)
+                elif k is not None and k.get("ty") == "bool" and k.get("v") == "false":
+                    pass
+                else:
+                    others.append(r)
+            if reads and not others and not neg:
+                f = (owner, name)
         if f and f[1] == name and ends(f[0], owner):
             for s in b.succ(a):
                 truth, _ = edge_is_true(b, a, s)
